@@ -18,6 +18,7 @@ from pyvc.rewrite import LoopSpec
 from pyvc import heap as H, regex, strmodel
 
 LEVEL = "other"
+STANDIN_ALWAYS_THOROUGH = True      # its large bound takes seconds: used at both tiers
 EXPLANATION = ("MIXED: integer accounting invariants of the real async body readers and the gzip delegate proved by SMT (loops cut at "
                "invariants; every await/delegate call may also raise): bytes handed to the application never exceed max_body_size, "
                "declared lengths above the limit are refused before reading. End-to-end refusal/closing and the header-size limit via the "
